@@ -15,7 +15,7 @@ EXTENDS Integers, Sequences, FiniteSets, TLC
 CONSTANTS Dev
 
 FeatVariants == {"tls_required", "tls_optional", "tls_absent_others", "empty", "tls_with_others", "junk"}
-Answers == {"proceed", "failure", "foreign", "unknown", "chardata", "eof"}
+Answers == {"proceed", "failure", "foreign", "unknown", "chardata", "whitespace", "eof"}
 Injects == {"none", "fakestream", "garbage"}     \* clear-text bytes pipelined right behind the answer
 HsOutcomes == {"ok", "fail"}                      \* the TLS handshake (certificate accepted or not)
 
